@@ -124,7 +124,7 @@ def _known_sign(b):
     k0 = b.get_id()
     if tab.get(k0, 0) != 0:
         return tab[k0]          # signs only become *more* determined along a path
-    ctx.solver.set("timeout", 500)
+    ctx._set_timeout(500)
     try:
         r, _ = ctx._check(b <= 0)
         if r == z3.unsat:
@@ -135,7 +135,7 @@ def _known_sign(b):
             tab[k0] = -1
             return -1
     finally:
-        ctx.solver.set("timeout", ctx.timeout_ms)
+        ctx._set_timeout(ctx.timeout_ms)
     return 0
 
 
@@ -505,12 +505,20 @@ class Ctx:
     """One symbolic path: a decision prefix that is replayed, then extended."""
     concrete = False
 
-    def __init__(self, prefix=(), timeout_ms=10000, seed=0):
+    def __init__(self, prefix=(), timeout_ms=10000, seed=0, rlimit=None):
         self.prefix = list(prefix)
         self.trace = []
         self.alts = []            # alternative prefixes discovered on this path
         self.solver = z3.Solver()
-        self.solver.set("timeout", timeout_ms)
+        # opt-in (contract attribute `rlimit`): bound every check of the
+        # incremental solver by z3's deterministic resource limit instead of a
+        # wall-clock timeout.  A wall-clock timeout costs one timer thread per
+        # check (~5 ms), which dominates contracts with many tiny linear queries.
+        self.rlimit = rlimit
+        if rlimit:
+            self.solver.set("rlimit", int(rlimit))
+        else:
+            self.solver.set("timeout", timeout_ms)
         self.solver.set("random_seed", seed)
         self.timeout_ms = timeout_ms
         self.nfresh = 0
@@ -525,6 +533,10 @@ class Ctx:
         self.backend_used = {}
 
     # -- solver plumbing
+    def _set_timeout(self, ms):
+        if not self.rlimit:
+            self.solver.set("timeout", ms)
+
     def _check(self, *extra):
         t0 = time.time()
         self.solver.push()
@@ -540,11 +552,11 @@ class Ctx:
     def _check_quick(self, neg):
         """incremental solver with a short budget (it is weak on non-linear
         integer arithmetic; a fresh solver does much better there)"""
-        self.solver.set("timeout", min(self.timeout_ms, 2000))
+        self._set_timeout(min(self.timeout_ms, 2000))
         try:
             return self._check(neg)
         finally:
-            self.solver.set("timeout", self.timeout_ms)
+            self._set_timeout(self.timeout_ms)
 
     def _check_fresh(self, neg):
         """fresh non-incremental z3 solver, then the z3-new / cvc5 CLIs"""
@@ -584,10 +596,10 @@ class Ctx:
         d = self._next()
         if d is None:
             # feasibility is an optimisation only: `unknown` counts as feasible
-            self.solver.set("timeout", min(self.timeout_ms, 1000))
+            self._set_timeout(min(self.timeout_ms, 1000))
             rt, _ = self._check(cond)
             rf, _ = self._check(z3.Not(cond))
-            self.solver.set("timeout", self.timeout_ms)
+            self._set_timeout(self.timeout_ms)
             can_t, can_f = rt != z3.unsat, rf != z3.unsat
             if can_t and can_f:
                 self.alts.append(self.trace + [0])
@@ -643,9 +655,9 @@ class Ctx:
             return
         t = liftb(cond)
         self.solver.add(t)
-        self.solver.set("timeout", min(self.timeout_ms, 1000))
+        self._set_timeout(min(self.timeout_ms, 1000))
         r, _ = self._check()
-        self.solver.set("timeout", self.timeout_ms)
+        self._set_timeout(self.timeout_ms)
         if r == z3.unsat:
             raise PathInfeasible()
 
